@@ -9,28 +9,6 @@ import (
 	"github.com/gordian-engine/gordian/tm/tmconsensus"
 )
 
-// vhCommitObserved reports what the kernel now treats as committed at height h.
-type vhCommit struct {
-	happened  bool
-	hash      string
-	stored    bool
-	storeHash string
-}
-
-func (e *vhEnv) commitAt(h uint64) vhCommit {
-	var c vhCommit
-	if e.s.Committing.Height == h && len(e.s.CommittingHeader.Hash) > 0 {
-		c.happened = true
-		c.hash = string(e.s.CommittingHeader.Hash)
-	}
-	ch, err := e.hs.LoadCommittedHeader(e.ctx, h)
-	if err == nil {
-		c.stored = true
-		c.storeHash = string(ch.Header.Hash)
-	}
-	return c
-}
-
 // VH_C01_L1_CommitRule: precommits for up to two blocks and nil arrive through the real
 // addPrecommit entry (any signer subset per target, any powers, 0-2 proposed headers known,
 // any map iteration order). Whenever the kernel then treats a header as committed (committing
